@@ -301,4 +301,19 @@ R13Splice(e) == (e.outcome = "ok" /\ ~e.ierr) =>
                   /\ ~e.splice_err
                   /\ ("in" \in DOMAIN e => Norm(e.in, "markup") = Norm(e.out, "markup"))
 
+(***************************************************************************)
+(* R16 — every front-end yields exactly the library's bytes (digest and    *)
+(* length of what the front-end produced vs of what the library returns    *)
+(* for the same text and configuration; the input itself when erroneous).  *)
+(***************************************************************************)
+R16(e) == e.cli_sha = e.lib_sha /\ e.cli_len = e.lib_len
+
+(***************************************************************************)
+(* R02 — the observation of the compiler is unchanged.  Obs(text) is an    *)
+(* uninterpreted function supplied by the environment (the real Typst      *)
+(* compiler, run by the harness): pages with their pixel digests and the   *)
+(* document metadata, or the list of diagnostics.                          *)
+(***************************************************************************)
+R02(e) == e.obs_in = e.obs_out
+
 =============================================================================
